@@ -40,6 +40,8 @@ CONSTANTS MaxS,      \* max. number of generated statements of f after the defin
           Shapes,    \* definition shapes: subset of {"", "H", "L", "C", "HC", "LC"}
           Mod,       \* completed programs are kept when Hash(prog) % Mod = Rem
           NCalls,    \* argument tuples per program (prefix of CallSeq)
+          NProg,     \* Sample mode: number of behaviours (one random derivation each); otherwise 1
+          Sample,    \* TRUE: Fill takes one random production (RandomElement) instead of all of them
           Wide,      \* TRUE: full atom / operator pools; FALSE: reduced pools (exhaustive runs)
           Dump
 
@@ -47,9 +49,10 @@ VARIABLES prog,      \* program tree (with holes while phase = "gen")
           phase,     \* "gen" | "run"
           ms,        \* module state [heap, glob] after the calls so far
           hist,      \* expected observations, one per call
-          ncall
+          ncall,
+          pid        \* number of the behaviour (distinguishes the initial states in Sample mode)
 
-vars == <<prog, phase, ms, hist, ncall>>
+vars == <<prog, phase, ms, hist, ncall, pid>>
 
 Rem == IF "C01_REM" \in DOMAIN IOEnv THEN atoi(IOEnv.C01_REM) % Mod ELSE 0
 
@@ -94,11 +97,16 @@ Tuple0 == Op("tuple", "", <<>>)
 ConstT == Op("tuple", "", <<IntL(1), StrL("a")>>)
 IsTypes == IF Wide THEN {"int", "str", "tuple", "list", "bool"} ELSE {"int", "tuple"}
 
-(* atoms of unknown type: names and attributes *)
+(* atoms of unknown type: names and attributes.  To keep a fair share of the calls free of type errors, int-wanting
+   holes prefer a, x, g and o.w, sequence-wanting holes prefer b, y and the class attribute v; A holes take everything *)
+NotForI == {"b", "y"}
+NotForQ == {"a", "x", "g"}
 NameAtoms(h) ==
-    {Nm(x) : x \in Range(h.p)}
-    \cup (IF HasFlag(h, "C") THEN {Op("attr", "v", <<Nm("o")>>), Op("attr", "w", <<Nm("o")>>), Op("attr", "v", <<Nm("C")>>)} ELSE {})
-    \cup (IF HasFlag(h, "m") THEN {Op("attr", "v", <<Nm("self")>>), Op("attr", "w", <<Nm("self")>>)} ELSE {})
+    {Nm(x) : x \in Range(h.p) \ (IF h.s = "I" THEN NotForI ELSE IF h.s = "Q" THEN NotForQ ELSE {})}
+    \cup (IF HasFlag(h, "C") /\ h.s # "Q" THEN {Op("attr", "w", <<Nm("o")>>)} ELSE {})
+    \cup (IF HasFlag(h, "C") /\ h.s # "I" THEN {Op("attr", "v", <<Nm("o")>>), Op("attr", "v", <<Nm("C")>>)} ELSE {})
+    \cup (IF HasFlag(h, "m") /\ h.s # "Q" THEN {Op("attr", "w", <<Nm("self")>>)} ELSE {})
+    \cup (IF HasFlag(h, "m") /\ h.s # "I" THEN {Op("attr", "v", <<Nm("self")>>)} ELSE {})
 
 EProds(h) ==
     LET d == h.i
@@ -958,10 +966,9 @@ Exec(n, env, st) ==
 (* The machine: program construction, module execution, calls *)
 
 ArgPool == <<VInt(0 - 1), VInt(0), VInt(2), VStr("a"), VNone, VTuple(<<VInt(1), VInt(2)>>)>>
-(* argument tuples, ordered so that every prefix mixes the values: (i, (i + d) mod 6) for d = 0, 1, .. *)
-CallSeq == [k \in 1..36 |-> LET d == (k - 1) \div 6
-                                 i == ((k - 1) % 6) + 1
-                             IN  <<ArgPool[i], ArgPool[((i - 1 + d) % 6) + 1]>>]
+(* argument tuples as index pairs into ArgPool: first the six tuples (int, sequence), then the others diagonal by diagonal *)
+CallIdx == <<<<1, 4>>, <<2, 6>>, <<3, 4>>, <<1, 6>>, <<2, 4>>, <<3, 6>>, <<1, 1>>, <<2, 2>>, <<3, 3>>, <<4, 4>>, <<5, 5>>, <<6, 6>>, <<1, 2>>, <<2, 3>>, <<4, 5>>, <<5, 6>>, <<6, 1>>, <<1, 3>>, <<3, 5>>, <<4, 6>>, <<5, 1>>, <<6, 2>>, <<2, 5>>, <<4, 1>>, <<5, 2>>, <<6, 3>>, <<1, 5>>, <<3, 1>>, <<4, 2>>, <<5, 3>>, <<6, 4>>, <<2, 1>>, <<3, 2>>, <<4, 3>>, <<5, 4>>, <<6, 5>>>>
+CallSeq == [k \in 1..36 |-> <<ArgPool[CallIdx[k][1]], ArgPool[CallIdx[k][2]]>>]
 
 LastOom == IF hist = <<>> THEN FALSE ELSE hist[Len(hist)].kind = "oom"
 
@@ -983,12 +990,15 @@ Init == /\ prog \in {Skeleton(sh, ns) : sh \in Shapes, ns \in 1..MaxS}
         /\ ms = NoMs
         /\ hist = <<>>
         /\ ncall = 0
+        /\ pid \in 1..NProg
 
 Fill == /\ phase = "gen"
         /\ HasHole(prog)
         /\ LET path == HolePath(prog)
-           IN  \E sub \in Prods(NodeAt(prog, path, 1)) : prog' = FillAt(prog, path, 1, sub)
-        /\ UNCHANGED <<phase, ms, hist, ncall>>
+               ps == Prods(NodeAt(prog, path, 1))
+           IN  IF Sample THEN prog' = FillAt(prog, path, 1, RandomElement(ps))
+               ELSE \E sub \in ps : prog' = FillAt(prog, path, 1, sub)
+        /\ UNCHANGED <<phase, ms, hist, ncall, pid>>
 
 (* the module body: g = 0; def f(a, b): ... *)
 Seal == /\ phase = "gen"
@@ -996,7 +1006,7 @@ Seal == /\ phase = "gen"
         /\ Hash(prog) % Mod = Rem
         /\ LET r == Exec(prog, <<>>, St0) IN ms' = [heap |-> r.st.heap, glob |-> r.st.glob]
         /\ phase' = "run"
-        /\ UNCHANGED <<prog, hist, ncall>>
+        /\ UNCHANGED <<prog, hist, ncall, pid>>
 
 Call == /\ phase = "run"
         /\ ncall < NCalls
@@ -1006,7 +1016,7 @@ Call == /\ phase = "run"
            IN  /\ hist' = Append(hist, Obs(r))
                /\ ms' = [heap |-> r.st.heap, glob |-> r.st.glob]
         /\ ncall' = ncall + 1
-        /\ UNCHANGED <<prog, phase>>
+        /\ UNCHANGED <<prog, phase, pid>>
 
 Next == Fill \/ Seal \/ Call
 Spec == Init /\ [][Next]_vars
